@@ -258,6 +258,9 @@ class Recon:
             ann = self._param_annotation(ctx, d.index)
             if ann is not None:
                 return ("self", ann.key)
+            ct = self._param_ctype(ctx, d.index)
+            if ct is not None:
+                return ("inst", ct.name, ("p", ctx.qual, d.index), ct.layout_key)
             return ("p", ctx.qual, d.index)
         if k in ("assign", "walrus"):
             return self._e(ctx, d.value, d.node, binds, False, depth + 1)
@@ -334,6 +337,35 @@ class Recon:
         if r and r[0] == "class":
             return r[1]
         return None
+
+    def _param_ctype(self, ctx: FuncCtx, index):
+        """Parameter annotated with a cstruct struct type (`x: c_vhd.footer | None`)."""
+        args = list(ctx.func.args.posonlyargs) + list(ctx.func.args.args)
+        if index is None or index >= len(args) or args[index].annotation is None:
+            return None
+        ann = args[index].annotation
+        cands = []
+        stack = [ann]
+        while stack:
+            a = stack.pop()
+            if isinstance(a, ast.BinOp) and isinstance(a.op, ast.BitOr):
+                stack += [a.left, a.right]
+            elif isinstance(a, ast.Constant) and isinstance(a.value, str):
+                try:
+                    stack.append(ast.parse(a.value, mode="eval").body)
+                except SyntaxError:
+                    pass
+            elif isinstance(a, (ast.Attribute, ast.Name)):
+                cands.append(a)
+        out = []
+        for a in cands:
+            try:
+                v = self.prog.fold(a, ctx.mi, ctx.ci)
+            except NotConst:
+                continue
+            if isinstance(v, CType) and v.is_struct:
+                out.append(v)
+        return out[0] if len(out) == 1 else None
 
     # -- attributes -------------------------------------------------------------------
     def attr(self, base, name: str, ctx: FuncCtx | None = None, depth=0):
@@ -673,6 +705,13 @@ class Recon:
                 return S.call(key, [a if a is not None else S.unk("default") for a in args], kws)
         if not kws and _inlineable(fdef) and depth < MAX_DEPTH and len([k for k in self._stack if k == ("inl", key)]) < 2:
             return self.inline(fdef, args, kws, depth + 1)
+        if not kws and depth < MAX_DEPTH and ("inl", key) not in self._stack and not any(
+                isinstance(n, (ast.Yield, ast.YieldFrom)) for n in _own_nodes(fdef)):
+            # not inlined, but if every return value is a struct instance, keep that type information
+            r = self.inline(fdef, args, kws, depth + 1)
+            alts = r[1] if r[0] == "join" else (r,)
+            if alts and all(a[0] == "inst" for a in alts):
+                return r
         return S.call(key, args, kws)
 
     def inline(self, fdef: ast.FunctionDef, args, kws, depth, force=False):
